@@ -245,6 +245,53 @@ def ostep (s : OSt) (kind : String) (args impl : List String) : Option (OSt × S
 
 def omachine : Machine := { σ := OSt, name := "originrep", init := fun _ => some {}, step := ostep }
 
+/-! build-index side: a tag matching several remotes is queued for every one of them -/
+
+structure TSt where
+  stored : List Nat := []                 -- tags the local index holds
+  queue : List (Nat × String) := []       -- replication tasks queued (tag, destination)
+  prevQ : List String := []               -- impl: the queue as dumped after the previous op
+
+def matching (t : Nat) : List String :=
+  ["r0"] ++ (if t = 1 ∨ t = 2 then ["r1"] else []) ++ (if t = 2 then ["r2"] else [])
+
+def tstep (s : TSt) (kind : String) (args impl : List String) : Option (TSt × StepOut) :=
+  if kind ≠ "op" then none else
+  match args with
+  | [op, tt] => do
+    let t ← (match tt.toList with | 't' :: ds => (String.ofList ds).toNat? | _ => none)
+    if op ≠ "put" ∧ op ≠ "repl" then none
+    let known := op = "put" ∨ t ∈ s.stored
+    let s' : TSt := if known then
+        { s with stored := if t ∈ s.stored then s.stored else t :: s.stored,
+                 queue := s.queue ++ (matching t).map fun r => (t, r) } else s
+    let qTok (q : List (Nat × String)) : String := "q=" ++ listTok (ssort (q.map fun (t, r) => s!"t{t}:{r}:1"))
+    -- impl side: after an acknowledged request every matching remote has one more queued task for the
+    -- tag than before, and nothing is queued for a remote that does not match
+    let implQ := list? ((kv? impl "q").getD "-")
+    let count (q : List String) (r : String) : Nat := (q.filter fun e => (e.splitOn ":").take 2 == [tt, r]).length
+    let pf := if impl.headD "" ≠ "ok" then [] else
+      ((matching t).filterMap fun r =>
+        if count implQ r < count s.prevQ r + 1 then
+          some s!"side=impl key=remote-never-replicated {tt} matches remote {r} and no replication task for it is queued after {op} {tt} was acknowledged: queue {implQ}"
+        else none) ++
+      (implQ.filterMap fun e =>
+        match e.splitOn ":" with
+        | tg :: r :: _ =>
+          (match tg.toList with
+           | 't' :: ds => (match (String.ofList ds).toNat? with
+              | some tn => if r ∈ matching tn then none else some s!"side=impl key=replicated-to-unmatched-remote a replication task {e} is queued for a remote the tag does not match"
+              | none => none)
+           | _ => none)
+        | _ => none)
+    pure ({ s' with prevQ := implQ },
+          { obs := [if known then "ok" else "notfound", qTok s'.queue],
+            branch := if ¬ known then "t.notfound" else if (matching t).length > 1 then "replicate-to-multiple-remotes" else "t.single-remote",
+            propfails := pf })
+  | _ => none
+
+def tmachine : Machine := { σ := TSt, name := "tagremotes", init := fun _ => some {}, step := tstep }
+
 end C33
 
-def main (args : List String) : IO UInt32 := runMachines [C33.machine, C33.omachine] args
+def main (args : List String) : IO UInt32 := runMachines [C33.machine, C33.omachine, C33.tmachine] args
